@@ -112,10 +112,22 @@ def write_nifti_image(data: Tensor, grid: Grid, path: PathUri) -> None:
         raise ValueError("write_image() data.ndim must be equal to grid.ndim or grid.ndim + 1")
     # Reverse order of axes
     dataobj = np.transpose(data.numpy(), axes=tuple(reversed(range(data.ndim))))
-    # Convert to NIfTI RAS convention
-    affine = grid.affine().cpu().numpy()
+    D = grid.ndim
+    if dataobj.shape[-1] == 1:
+        # Scalar image
+        dataobj = dataobj[..., 0]
+    else:
+        # Vector image: components are stored along the 5th axis
+        dataobj = dataobj.reshape(dataobj.shape[:D] + (1,) * (4 - D) + dataobj.shape[D:])
+    # Homogeneous index to world matrix in NIfTI RAS convention
+    affine = np.eye(4)
+    affine[:D, :D] = grid.affine().cpu().numpy()
+    affine[:D, 3] = grid.origin().cpu().numpy()
     affine[:2] *= -1
+    image = nib.Nifti1Image(dataobj, affine)
+    if dataobj.ndim > 4:
+        image.header.set_intent("vector")
     with StorageObject.from_path(path) as obj:
         local_path = unlink_or_mkdir(obj.path)
-        nib.save(nib.Nifti1Image(dataobj, affine), str(local_path))
+        nib.save(image, str(local_path))
         obj.push(force=True)
